@@ -18,7 +18,13 @@ import time
 VERIF = os.path.dirname(os.path.dirname(os.path.abspath(__file__)))
 REPO = os.environ.get("HWLOC_VERIF_REPO", "/repo")
 BUILD = os.path.join(VERIF, "build")
-COQ = os.path.join(VERIF, "coq")
+COQ_SRC = os.path.join(VERIF, "coq")
+# A non-default source root (mutation self-tests) gets its own copy of the Coq
+# tree, so that its regenerated Gen/Tables.v never disturbs the main one.
+if os.path.realpath(REPO) == "/repo":
+    COQ = COQ_SRC
+else:
+    COQ = os.path.join(BUILD, "coq-alt-" + hashlib.md5(os.path.realpath(REPO).encode()).hexdigest()[:10])
 EVID = os.path.join(VERIF, "evidence")
 REPLAY = os.path.join(EVID, "replay")
 NCPU = os.cpu_count() or 4
@@ -131,12 +137,16 @@ def build_lib(san=True):
     d = os.path.join(BUILD, "lib-%s-%s" % (tag, h))
     lib = os.path.join(d, "libhwloc_v.a")
     if os.path.exists(lib):
+        os.utime(d)
         return lib
-    # drop stale lib builds of the same flavour
+    # keep the 6 most recently used library builds of this flavour
     if os.path.isdir(BUILD):
-        for n in os.listdir(BUILD):
-            if n.startswith("lib-%s-" % tag):
-                shutil.rmtree(os.path.join(BUILD, n), ignore_errors=True)
+        olds = sorted((n for n in os.listdir(BUILD) if n.startswith("lib-%s-" % tag)),
+                      key=lambda n: os.path.getmtime(os.path.join(BUILD, n)))
+        for n in olds[:-5]:
+            shutil.rmtree(os.path.join(BUILD, n), ignore_errors=True)
+    d_final = d
+    d = d + ".tmp%d" % os.getpid()
     os.makedirs(d, exist_ok=True)
     t0 = time.time()
     procs = []
@@ -153,8 +163,11 @@ def build_lib(san=True):
         shutil.rmtree(d, ignore_errors=True)
         raise RuntimeError("library build failed: " + "\n".join("%s:\n%s" % f for f in fail)[-6000:])
     objs = [os.path.join(d, s[:-2] + ".o") for s in LIB_SOURCES]
-    sh(["ar", "rcs", lib + ".tmp"] + objs, check=True)
-    os.rename(lib + ".tmp", lib)
+    sh(["ar", "rcs", os.path.join(d, "libhwloc_v.a")] + objs, check=True)
+    try:
+        os.rename(d, d_final)
+    except OSError:
+        shutil.rmtree(d, ignore_errors=True)   # somebody else built it meanwhile
     log("[hv] built %s in %.1fs" % (lib, time.time() - t0))
     return lib
 
@@ -171,19 +184,25 @@ def build_harness(name, sources, san=True, with_lib=True, extra_flags=(), deps=(
     os.makedirs(d, exist_ok=True)
     exe = os.path.join(d, "%s-%s-%s" % (name, tag, h))
     if os.path.exists(exe):
+        os.utime(exe)
         return exe
-    for n in os.listdir(d):
-        if n.startswith("%s-%s-" % (name, tag)):
+    olds = sorted((n for n in os.listdir(d) if n.startswith("%s-%s-" % (name, tag)) and ".tmp" not in n),
+                  key=lambda n: os.path.getmtime(os.path.join(d, n)))
+    for n in olds[:-5]:
+        try:
             os.unlink(os.path.join(d, n))
+        except OSError:
+            pass
     cmd = ["gcc"] + cflags(san) + ["-I" + os.path.join(VERIF, "harness"),
                                     "-I" + os.path.join(REPO, "utils/hwloc")] + list(extra_flags) + srcs
     if with_lib:
         cmd += [build_lib(san)]
-    cmd += ["-o", exe + ".tmp"] + LINK_LIBS
+    tmp = exe + ".tmp%d" % os.getpid()
+    cmd += ["-o", tmp] + LINK_LIBS
     rc, out, err = sh(cmd, timeout=600)
     if rc != 0:
         raise RuntimeError("harness build failed (%s):\n%s" % (name, err.decode(errors="replace")[-6000:]))
-    os.rename(exe + ".tmp", exe)
+    os.rename(tmp, exe)
     return exe
 
 
@@ -246,7 +265,36 @@ def coq_files():
     return sorted(res)
 
 
+import contextlib
+import fcntl
+
+
+@contextlib.contextmanager
+def locked(name):
+    os.makedirs(BUILD, exist_ok=True)
+    with open(os.path.join(BUILD, name + ".lock"), "w") as f:
+        fcntl.flock(f, fcntl.LOCK_EX)
+        try:
+            yield
+        finally:
+            fcntl.flock(f, fcntl.LOCK_UN)
+
+
+def _sync_alt_coq():
+    if COQ == COQ_SRC:
+        return
+    os.makedirs(COQ, exist_ok=True)
+    sh(["rsync", "-a", "--delete", "--include=*/", "--include=*.v", "--exclude=*", "--exclude=Gen/Tables.v",
+        COQ_SRC + "/", COQ + "/"], check=True)
+    # first use: seed with the compiled files of the main tree to stay incremental
+    if not os.path.exists(os.path.join(COQ, ".seeded")):
+        sh(["rsync", "-a", "--include=*/", "--include=*.vo", "--include=*.glob", "--include=*.vos", "--include=*.vok",
+            "--exclude=*", COQ_SRC + "/", COQ + "/"])
+        open(os.path.join(COQ, ".seeded"), "w").close()
+
+
 def coq_prepare():
+    _sync_alt_coq()
     regen_tables()
     files = coq_files()
     proj = "-Q . HV\n-arg -w -arg -notation-overridden,-deprecated-hint-without-locality,-deprecated-instance-without-locality\n" + "\n".join(files) + "\n"
@@ -261,11 +309,12 @@ def coq_prepare():
 def coq_make(targets=None, timeout=3000):
     """Full .vo build (never -vos) of the given targets, -k so that an
     independent file's failure does not hide others.  Returns (ok, log)."""
-    coq_prepare()
-    cmd = ["make", "-k", "-j%d" % NCPU]
-    if targets:
-        cmd += targets
-    rc, out, err = sh(cmd, cwd=COQ, timeout=timeout)
+    with locked("coq-" + os.path.basename(COQ)):
+        coq_prepare()
+        cmd = ["make", "-k", "-j%d" % NCPU]
+        if targets:
+            cmd += targets
+        rc, out, err = sh(cmd, cwd=COQ, timeout=timeout)
     txt = out.decode(errors="replace") + err.decode(errors="replace")
     return rc == 0, txt
 
@@ -323,7 +372,6 @@ def coq_hygiene(files=None):
 
 def coq_deps(vfile):
     """Transitive list of project .v files a file depends on (coqdep)."""
-    coq_prepare()
     seen, todo = set(), [vfile]
     while todo:
         f = todo.pop()
